@@ -70,12 +70,12 @@ theorem takeParams_ok (ps rest : List Str) (h : special ∉ ps) :
     have hr : special ∉ r := fun e => h (List.mem_cons_of_mem _ e)
     simp only [List.length_cons, List.cons_append, takeParams, if_neg ha, ih hr]
 
-theorem step_item (opts : List Opt) (ign : Bool) (pre : List Str) (it : Item) (rest : List Str)
+theorem step_item (nulled : Bool) (opts : List Opt) (ign : Bool) (pre : List Str) (it : Item) (rest : List Str)
     (params : List Param) (h : it.ok opts) :
-    step opts ign pre it.tok (it.ps ++ rest) params =
+    step nulled opts ign pre it.tok (it.ps ++ rest) params =
       .next (pre ++ [it.tok] ++ it.ps) rest (params ++ [(it.k, it.ps)]) := by
   obtain ⟨h1, h2, h3, h4, h5⟩ := h
-  have hh : handle pre params it.k it.o (it.tok :: (it.ps ++ rest)) =
+  have hh : handle nulled pre params it.k it.o (it.tok :: (it.ps ++ rest)) =
       .next (pre ++ [it.tok] ++ it.ps) rest (params ++ [(it.k, it.ps)]) := by
     simp only [handle, List.tail_cons, ← h4, takeParams_ok it.ps rest h5, List.head?_cons,
       Option.toList_some]
@@ -127,11 +127,11 @@ theorem splitLetters_head (opts : List Opt) (ign : Bool) (args : List Str) (c : 
     · simp at h
     · simp only [Option.some.injEq, Prod.mk.injEq] at h; rw [← h.1]; rfl
 
-theorem step_unknown (opts : List Opt) (ign : Bool) (pre : List Str) (params : List Param)
+theorem step_unknown (nulled : Bool) (opts : List Opt) (ign : Bool) (pre : List Str) (params : List Param)
     (x : Str) (t : List Str) (h1 : x ≠ [dash, dash]) (h2 : x.head? = some dash)
     (h3 : lookup opts x = none)
     (h4 : x.take 2 ≠ [dash, dash] → find opts ((x.drop 1).take 1) = none) :
-    step opts ign pre x t params = .done (finish true pre (x :: t) params (x :: t)) := by
+    step nulled opts ign pre x t params = .done (finish true pre (x :: t) params (x :: t)) := by
   unfold step
   rw [if_neg h1, if_neg (by simp [h2])]
   unfold lookup at h3
@@ -159,9 +159,9 @@ theorem step_unknown (opts : List Opt) (ign : Bool) (pre : List Str) (params : L
         rw [splitLetters_head opts ign t c cs 0 sv u hs]
         simp only [List.drop_succ_cons, List.drop_zero, h4']
 
-theorem step_ending (opts : List Opt) (ign : Bool) (pre : List Str) (params : List Param)
+theorem step_ending (nulled : Bool) (opts : List Opt) (ign : Bool) (pre : List Str) (params : List Param)
     (x : Str) (t : List Str) (e : Ending) (he : e.ok opts) (hx : e.toks = x :: t) :
-    step opts ign pre x t params =
+    step nulled opts ign pre x t params =
       .done { rc := if e.err ign then ERROR else SUCCESS, argv := pre ++ e.toks, params := params,
               tail := e.tail } := by
   cases e with
@@ -183,18 +183,18 @@ theorem step_ending (opts : List Opt) (ign : Bool) (pre : List Str) (params : Li
     simp only [Ending.toks, List.cons.injEq] at hx
     obtain ⟨rfl, rfl⟩ := hx
     obtain ⟨h1, h2, h3, h4⟩ := he
-    rw [step_unknown opts ign pre params x' t' h1 h2 h3 h4]
+    rw [step_unknown nulled opts ign pre params x' t' h1 h2 h3 h4]
     simp [finish, Ending.err, Ending.toks, Ending.tail]
   | missing it =>
     simp only [Ending.toks, List.cons.injEq] at hx
     obtain ⟨rfl, rfl⟩ := hx
     obtain ⟨h1, h2, h3, h4, h5⟩ := he
-    have hh : handle pre params it.k it.o (it.tok :: it.ps) =
+    have hh : handle nulled pre params it.k it.o (it.tok :: it.ps) =
         .done (finish true pre (it.tok :: it.ps) params []) := by
       simp only [handle, List.tail_cons, takeParams_short it.ps _ h5 h4, doubleFrees,
         specialAt_none it.ps _ h5]
       rfl
-    have : step opts ign pre it.tok it.ps params =
+    have : step nulled opts ign pre it.tok it.ps params =
         .done (finish true pre (it.tok :: it.ps) params []) := by
       unfold step
       rw [if_neg h1, if_neg (by simp [h2])]
@@ -209,10 +209,10 @@ theorem step_ending (opts : List Opt) (ign : Bool) (pre : List Str) (params : Li
     rw [this]
     simp [finish, Ending.err, Ending.toks, Ending.tail]
 
-theorem parseLoop_wellformed (opts : List Opt) (ign : Bool) (items : List Item) (e : Ending)
+theorem parseLoop_wellformed (nulled : Bool) (opts : List Opt) (ign : Bool) (items : List Item) (e : Ending)
     (h : ∀ it ∈ items, it.ok opts) (he : e.ok opts) :
     ∀ (fuel : Nat) (pre : List Str) (params : List Param), items.length + 1 ≤ fuel →
-      parseLoop opts ign fuel pre (render items ++ e.toks) params =
+      parseLoop nulled opts ign fuel pre (render items ++ e.toks) params =
         { rc := if e.err ign then ERROR else SUCCESS, argv := pre ++ render items ++ e.toks,
           params := params ++ items.map (fun it => (it.k, it.ps)), tail := e.tail } := by
   induction items with
@@ -230,7 +230,7 @@ theorem parseLoop_wellformed (opts : List Opt) (ign : Bool) (items : List Item) 
       | missing it => simp [Ending.toks] at hx
     | cons x t =>
       simp only [parseLoop]
-      rw [step_ending opts ign pre params x t e he hx, hx]
+      rw [step_ending nulled opts ign pre params x t e he hx, hx]
   | cons it r ih =>
     intro fuel pre params hf
     obtain ⟨f, rfl⟩ : ∃ f, fuel = f + 1 := ⟨fuel - 1, by simp at hf; omega⟩
@@ -240,7 +240,7 @@ theorem parseLoop_wellformed (opts : List Opt) (ign : Bool) (items : List Item) 
       simp [render, List.flatMap_cons]
     rw [this]
     simp only [parseLoop]
-    rw [step_item opts ign pre it _ params hit]
+    rw [step_item nulled opts ign pre it _ params hit]
     simp only
     rw [ih hr f _ _ (by simp at hf; omega)]
     simp [render, List.flatMap_cons]
@@ -338,4 +338,39 @@ theorem splitLetters_expand (opts : List Opt) (ign : Bool) (args : List Str) (cs
           rw [← h2]
           have e1 : used + (o.nparams.toNat + m) = used + o.nparams.toNat + m := by omega
           rw [e1]
+theorem doubleFrees_nulled (n : Nat) (l : List Str) : doubleFrees true n l = false := by
+  unfold doubleFrees; split <;> rfl
+
+theorem handle_no_double_free (pre : List Str) (params : List Param) (k : Nat) (o : Opt)
+    (rest' : List Str) (r : Result) (h : handle true pre params k o rest' = .done r) :
+    r.doubleFree = false := by
+  unfold handle at h
+  split at h
+  · simp at h
+  · simp only [Step.done.injEq] at h
+    rw [← h]; exact doubleFrees_nulled _ _
+
+theorem step_no_double_free (opts : List Opt) (ign : Bool) (pre : List Str) (tok : Str)
+    (more : List Str) (params : List Param) (r : Result)
+    (h : step true opts ign pre tok more params = .done r) : r.doubleFree = false := by
+  unfold step at h
+  repeat' split at h
+  all_goals first
+    | (simp only [Step.done.injEq] at h; rw [← h]; rfl)
+    | exact handle_no_double_free _ _ _ _ _ _ h
+
+theorem parseLoop_no_double_free (opts : List Opt) (ign : Bool) (fuel : Nat) :
+    ∀ (pre rest : List Str) (params : List Param),
+      (parseLoop true opts ign fuel pre rest params).doubleFree = false := by
+  induction fuel with
+  | zero => intro pre rest params; rfl
+  | succ f ih =>
+    intro pre rest params
+    cases rest with
+    | nil => rfl
+    | cons tok more =>
+      simp only [parseLoop]
+      cases hs : step true opts ign pre tok more params with
+      | done r => exact step_no_double_free _ _ _ _ _ _ _ hs
+      | next p r ps => exact ih p r ps
 end ParsecVerif.CmdLine
